@@ -40,6 +40,8 @@ var c12Static = []string{"ARGS_GET", "ARGS_GET:a", "ARGS_GET:b", "ARGS_GET:/^a/"
 var c12Dynamic = []string{"MATCHED_VAR", "MATCHED_VARS", "MATCHED_VAR_NAME", "MATCHED_VARS_NAMES", "RULE:id", "&ARGS_GET", "&ARGS", "TX:/^\\d$/", "MATCHED_VARS:/a/"}
 
 type c12Rule struct {
+	Multi   bool      `json:"multi_match,omitempty"`
+	Phase   int       `json:"phase,omitempty"` // 0 = the scenario's phase
 	ID      int       `json:"id"`
 	Targets string    `json:"targets"`
 	Trans   []string  `json:"t"`
@@ -74,6 +76,11 @@ func c12GenRule(t *verifrt.Tape, family []string, id int, depth int, allowDyn bo
 	if t.Draw(3) == 0 {
 		r.Trans = append(r.Trans, pick(t, c12Trans))
 	}
+	if allowDyn && t.Draw(6) == 0 {
+		// multiMatch bypasses the cache; only the differential oracle applies
+		r.Multi = true
+		r.Dynamic = true
+	}
 	if depth == 0 && t.Draw(5) == 0 {
 		c := c12GenRule(t, family, 0, 1, allowDyn)
 		r.Chain = &c
@@ -95,6 +102,9 @@ func c12Gen(t *verifrt.Tape) *c12Scenario {
 	n := 2 + t.Draw(5)
 	for i := 0; i < n; i++ {
 		r := c12GenRule(t, family, 201+i, 0, allowDyn)
+		if sc.Phase == 2 && t.Draw(4) == 0 {
+			r.Phase = 1 // the cache must not carry anything from phase 1 into phase 2
+		}
 		if r.Dynamic {
 			sc.Dynamic = true
 		}
@@ -132,7 +142,14 @@ func (sc *c12Scenario) text(variant int) string {
 	render = func(r *c12Rule, child bool) {
 		var acts []string
 		if !child {
-			acts = append(acts, fmt.Sprintf("id:%d", r.ID), fmt.Sprintf("phase:%d", sc.Phase), "pass", "nolog")
+			ph := sc.Phase
+			if r.Phase != 0 {
+				ph = r.Phase
+			}
+			acts = append(acts, fmt.Sprintf("id:%d", r.ID), fmt.Sprintf("phase:%d", ph), "pass", "nolog")
+		}
+		if r.Multi {
+			acts = append(acts, "multiMatch")
 		}
 		switch variant {
 		case 0:
